@@ -78,11 +78,26 @@ fn batch_strat() -> impl Strategy<Value = Vec<(u8, u8, u8)>> {
     })
 }
 
+/// As `batch_strat`; a quarter of the batches write one of their keys a second time, later in
+/// the batch, with a higher version and another value (what the commit of a request that updated
+/// one entry twice hands to the local store).  All plausible semantics agree on such a batch:
+/// it is accepted iff every entry is acceptable against what is stored, and the last entry wins.
+fn batch_dup_strat() -> impl Strategy<Value = Vec<(u8, u8, u8)>> {
+    (batch_strat(), prop::bool::weighted(0.25), any::<u8>(), 1u8..3, 0u8..4).prop_map(|(mut v, dup, pick, dv, val)| {
+        if dup && !v.is_empty() {
+            let i = crate::engine::pick_idx((pick as u16) << 8, v.len());
+            let (k, ver, _) = v[i];
+            v.push((k, ver + dv, val));
+        }
+        v
+    })
+}
+
 fn op_strat() -> impl Strategy<Value = Op> {
     prop_oneof![
         4 => (k_strat(), 0u8..4).prop_map(|(k, v)| Op::Put { k, v }),
         5 => (k_strat(), 0u8..6, 0u8..4).prop_map(|(k, ver, v)| Op::PutV { k, ver, v }),
-        3 => batch_strat().prop_map(Op::Batch),
+        3 => batch_dup_strat().prop_map(Op::Batch),
         1 => k_strat().prop_map(|k| Op::Delete { k }),
         1 => k_strat().prop_map(|k| Op::Get { k }),
         1 => k_strat().prop_map(|k| Op::GetVersion { k }),
@@ -214,11 +229,21 @@ impl C16 {
                     shape.push((1, exp.is_ok()));
                 }
                 Op::Batch(items) => {
+                    // entries are applied in order (a key may occur twice, with increasing versions)
                     let mut ok = true;
+                    let mut staged = model.clone();
                     for (k, ver, v) in items {
-                        if model_putv(&model, KEYS[*k as usize], *ver as u64, &value(*v)).is_err() {
-                            ok = false;
+                        match model_putv(&staged, KEYS[*k as usize], *ver as u64, &value(*v)) {
+                            Err(()) => ok = false,
+                            Ok(true) => {
+                                staged.insert(KEYS[*k as usize].to_string(), (*ver as u64, value(*v)));
+                            }
+                            Ok(false) => {}
                         }
+                    }
+                    let has_dup = items.iter().enumerate().any(|(i, a)| items[..i].iter().any(|b| b.0 == a.0));
+                    if has_dup {
+                        st.class(if ok { "batch_with_repeated_key:accepted" } else { "batch_with_repeated_key:refused" });
                     }
                     let mk = || -> Vec<KVV> {
                         items
@@ -235,12 +260,7 @@ impl C16 {
                         return fail("redb.put_batch", i, format!("{:?} -> {:?}, model expects ok={}", op, r2, ok));
                     }
                     if ok {
-                        for (k, ver, v) in items {
-                            let key = KEYS[*k as usize];
-                            if let Ok(true) = model_putv(&model, key, *ver as u64, &value(*v)) {
-                                model.insert(key.to_string(), (*ver as u64, value(*v)));
-                            }
-                        }
+                        model = staged;
                         accepted += 1;
                     } else if accepted >= 5 {
                         refused_after5 += 1;
